@@ -1271,3 +1271,373 @@ Proof.
              f_equal; lia
             |repeat split; intros; lia]).
 Qed.
+
+(* ================================================================== *)
+(* 9. The nesting limit: the recursion budget of the model is never   *)
+(*    exhausted, for any font and any charstring                      *)
+(* ================================================================== *)
+
+Ltac nf :=
+  repeat first
+    [ progress cbn [cbind]
+    | match goal with
+      | |- COk _ <> CFuel => discriminate
+      | |- CErr _ <> CFuel => discriminate
+      | |- CPanic <> CFuel => discriminate
+      | |- (match ?x with _ => _ end) <> CFuel => destruct x
+      end ].
+
+Lemma nofuel_bind {A B} (x : cres A) (f : A -> cres B) :
+  x <> CFuel -> (forall a, f a <> CFuel) -> cbind x f <> CFuel.
+Proof. intros Hx Hf. destruct x; cbn [cbind]; try discriminate; [apply Hf|congruence]. Qed.
+
+Lemma hv_curves_nofuel : forall a h x y, hv_curves h x y a <> CFuel.
+Proof.
+  intros a. remember (length a) as n eqn:Hn. revert a Hn.
+  induction n as [n IH] using lt_wf_ind. intros a Hn h x y.
+  destruct a as [|d1 [|d2 [|d3 [|d4 r]]]]; cbn [hv_curves]; try discriminate.
+  assert (Hr : forall h' x' y', hv_curves h' x' y' r <> CFuel).
+  { intros. apply (IH (length r)); [subst n; cbn [length]; lia|reflexivity]. }
+  destruct h.
+  - destruct r as [|d5 [|d6 r']]; try discriminate; (apply nofuel_bind; [apply Hr|intros [[xf yf] c]; discriminate]).
+  - destruct r as [|d5 [|d6 r']]; try discriminate; (apply nofuel_bind; [apply Hr|intros [[xf yf] c]; discriminate]).
+Qed.
+
+Lemma pvisit_nofuel : forall f p a, pvisit f p a <> CFuel.
+Proof.
+  intros f p a. destruct f; cbn [pvisit];
+    try (unfold parse_move_to, parse_horizontal_move_to, parse_vertical_move_to, parse_line_to,
+           parse_horizontal_line_to, parse_vertical_line_to, parse_curve_to, parse_curve_line,
+           parse_line_curve, parse_hh_curve_to, parse_vv_curve_to, parse_flex, parse_flex1,
+           parse_hflex, parse_hflex1; nf; fail).
+  - unfold parse_hv_curve_to, parse_hv_vh. nf.
+    apply nofuel_bind; [apply hv_curves_nofuel|intros [[x y] c]; discriminate].
+  - unfold parse_vh_curve_to, parse_hv_vh. nf.
+    apply nofuel_bind; [apply hv_curves_nofuel|intros [[x y] c]; discriminate].
+Qed.
+
+Lemma visit_op_nofuel : forall op off s, visit_op op off s <> CFuel.
+Proof.
+  intros. unfold visit_op. destruct (visit_fn op); [|discriminate].
+  apply nofuel_bind; [apply pvisit_nofuel|intros [p' c]; discriminate].
+Qed.
+
+Lemma push_nofuel : forall e v s, push e v s <> CFuel.
+Proof. intros. unfold push. nf. Qed.
+Lemma pop_nofuel : forall s, pop s <> CFuel.
+Proof. intros. unfold pop. nf. Qed.
+Lemma add_u32_nofuel : forall m a b, add_u32 m a b <> CFuel.
+Proof. intros. unfold add_u32. nf. Qed.
+Lemma conv_nofuel : forall v b, conv_subroutine_index v b <> CFuel.
+Proof. intros. unfold conv_subroutine_index. nf. Qed.
+
+Lemma push_all_nofuel : forall e vs s, push_all e vs s <> CFuel.
+Proof.
+  induction vs as [|v r IH]; intros s; cbn [push_all]; [discriminate|].
+  apply nofuel_bind; [apply push_nofuel|apply IH].
+Qed.
+
+Lemma blend_nofuel : forall e sc s, blend e sc s <> CFuel.
+Proof.
+  intros. unfold blend. destruct (stk s); [discriminate|].
+  apply nofuel_bind; [apply pop_nofuel|intros [nv s1]].
+  destruct (try_as_u16 nv); [|discriminate]. nf. apply push_all_nofuel.
+Qed.
+
+Lemma blend_scalars_nofuel : forall e s, blend_scalars e s <> CFuel.
+Proof.
+  intros. unfold blend_scalars. destruct (scal s); [discriminate|].
+  apply nofuel_bind; [nf|intros vi; nf].
+Qed.
+
+Lemma step_nofuel : forall rec k e d op r s,
+  (forall cs s', d <> STACK_LIMIT -> rec (d + 1) cs s' <> CFuel) ->
+  (forall b s', (length b <= length r)%nat -> k b s' <> CFuel) ->
+  step rec k e d op r s <> CFuel.
+Proof.
+  intros rec k e d op r s Hrec Hk.
+  assert (Hr : forall s', k r s' <> CFuel) by (intros; apply Hk; lia).
+  assert (Hcall : forall subrs, step_call rec k d subrs r s <> CFuel).
+  { intros subrs. unfold step_call. destruct (stk s); [discriminate|].
+    destruct (Z.eqb_spec d STACK_LIMIT) as [|Hd]; [discriminate|].
+    destruct subrs as [subrs|]; [|discriminate].
+    apply nofuel_bind; [apply pop_nofuel|intros [v s1]].
+    apply nofuel_bind; [apply conv_nofuel|intros idx].
+    destruct (nth_opt subrs idx); [|discriminate].
+    apply nofuel_bind; [apply Hrec, Hd|intros s2].
+    unfold after_call. nf. apply Hr. }
+  unfold step. destruct (classify op); try discriminate; try apply Hcall.
+  - unfold step_stem. destruct (stem_count s) as [cnt w].
+    apply nofuel_bind; [apply add_u32_nofuel|intros st].
+    apply nofuel_bind; [apply visit_op_nofuel|intros s1]. apply Hr.
+  - unfold step_move. destruct (move_offset s 2) as [off w].
+    apply nofuel_bind; [apply visit_op_nofuel|intros s1]. apply Hr.
+  - unfold step_simple. apply nofuel_bind; [apply visit_op_nofuel|intros s1]. apply Hr.
+  - destruct (e_kind e); [apply visit_op_nofuel|discriminate].
+  - unfold step_escape. destruct r as [|op2 r2]; [discriminate|].
+    destruct (is_flex_op op2); [|discriminate].
+    apply nofuel_bind; [apply visit_op_nofuel|intros s1]. apply Hk. cbn [length]. lia.
+  - unfold step_endchar. destruct (e_kind e); [|discriminate].
+    apply nofuel_bind.
+    + destruct (_ || _).
+      * unfold step_seac. destruct (Z.eqb_spec d STACK_LIMIT) as [|Hd]; [discriminate|].
+        apply nofuel_bind; [apply pop_nofuel|intros [av s1]].
+        destruct (seac_gid e av) as [accent|]; [|discriminate].
+        apply nofuel_bind; [apply pop_nofuel|intros [bv s2]].
+        destruct (seac_gid e bv) as [base|]; [|discriminate].
+        apply nofuel_bind; [apply pop_nofuel|intros [dy s3]].
+        apply nofuel_bind; [apply pop_nofuel|intros [dx s4]].
+        apply nofuel_bind.
+        { destruct (_ && _); [|discriminate].
+          apply nofuel_bind; [apply pop_nofuel|intros [v s5]; discriminate]. }
+        intros s5. destruct (nth_opt (e_glyphs e) base); [|discriminate].
+        apply nofuel_bind; [apply Hrec, Hd|intros s6].
+        destruct (nth_opt (e_glyphs e) accent); [|discriminate]. apply Hrec, Hd.
+      * destruct (_ && _); [|discriminate].
+        apply nofuel_bind; [apply pop_nofuel|intros [v s1]; discriminate].
+    + intros s3. destruct r; [apply visit_op_nofuel|discriminate].
+  - unfold step_vsindex. destruct (e_kind e); [discriminate|]. destruct (vsidx s); [discriminate|].
+    destruct (negb _); [discriminate|].
+    apply nofuel_bind; [apply visit_op_nofuel|intros s1].
+    apply nofuel_bind; [apply pop_nofuel|intros [v s2]].
+    destruct (try_as_u16 v); [apply Hr|discriminate].
+  - unfold step_blend. destruct (e_kind e); [discriminate|]. destruct (negb _); [discriminate|].
+    destruct (stk s); [discriminate|].
+    apply nofuel_bind; [apply visit_op_nofuel|intros s1].
+    apply nofuel_bind; [apply blend_scalars_nofuel|intros [sc s2]].
+    apply nofuel_bind; [apply blend_nofuel|intros s3]. apply Hr.
+  - unfold step_mask. destruct (stem_count s) as [cnt w].
+    apply nofuel_bind; [apply visit_op_nofuel|intros s1].
+    apply nofuel_bind; [apply add_u32_nofuel|intros st].
+    apply nofuel_bind; [apply add_u32_nofuel|intros st7].
+    destruct (_ <? _); [discriminate|]. apply Hk. apply length_drop_le.
+  - unfold step_move. destruct (move_offset s 3) as [off w].
+    apply nofuel_bind; [apply visit_op_nofuel|intros s1]. apply Hr.
+  - unfold step_move. destruct (move_offset s 2) as [off w].
+    apply nofuel_bind; [apply visit_op_nofuel|intros s1]. apply Hr.
+  - unfold step_shortint. destruct r as [|b1 [|b2 r2]]; try discriminate.
+    apply nofuel_bind; [apply push_nofuel|intros s1]. apply Hk. cbn [length]. lia.
+  - unfold step_int1. apply nofuel_bind; [apply push_nofuel|intros s1]. apply Hr.
+  - unfold step_int2, step_int23. destruct r as [|b1 r2]; [discriminate|].
+    assert (Hr2 : forall s', k r2 s' <> CFuel) by (intros; apply Hk; cbn [length]; lia).
+    destruct (e_mode e); [destruct (_ && _); [|discriminate]|];
+      (apply nofuel_bind; [apply push_nofuel|intros s1; apply Hr2]).
+  - unfold step_int3, step_int23. destruct r as [|b1 r2]; [discriminate|].
+    assert (Hr2 : forall s', k r2 s' <> CFuel) by (intros; apply Hk; cbn [length]; lia).
+    destruct (e_mode e); [destruct (_ && _); [|discriminate]|];
+      (apply nofuel_bind; [apply push_nofuel|intros s1; apply Hr2]).
+  - unfold step_fixed. destruct r as [|b1 [|b2 [|b3 [|b4 r2]]]]; try discriminate.
+    apply nofuel_bind; [apply push_nofuel|intros s1]. apply Hk. cbn [length]. lia.
+Qed.
+
+Lemma loop_nofuel : forall rec e d,
+  (forall cs s', d <> STACK_LIMIT -> rec (d + 1) cs s' <> CFuel) ->
+  forall n b s, (length b <= n)%nat -> loop rec e d n b s <> CFuel.
+Proof.
+  intros rec e d Hrec. induction n as [|n IH]; intros b s Hn.
+  - destruct b; [discriminate|cbn [length] in Hn; lia].
+  - destruct b as [|op r]; [discriminate|]. cbn [loop]. apply step_nofuel; [exact Hrec|].
+    intros b' s' Hb. apply IH. cbn [length] in Hn. lia.
+Qed.
+
+(* with df > STACK_LIMIT - depth activations available, visit_impl never needs more *)
+Lemma run_nofuel : forall df e d cs s,
+  0 <= d <= STACK_LIMIT -> STACK_LIMIT - d < Z.of_nat df -> run df e d cs s <> CFuel.
+Proof.
+  induction df as [|df IH]; intros e d cs s Hd Hf; [lia|].
+  cbn [run]. apply loop_nofuel; [|lia].
+  intros cs' s' Hne. apply IH; lia.
+Qed.
+
+(* for every font, glyph and build mode: the interpretation terminates within the nesting limit *)
+Theorem nesting_limit_enforced : forall e, interp_glyph e <> CFuel /\ run_glyph e <> CFuel.
+Proof.
+  intros e.
+  assert (H : interp_glyph e <> CFuel).
+  { unfold interp_glyph.
+    destruct (e_kind e);
+      (destruct (match glyph_fd e with Some fd => nth_opt (e_fds e) fd | None => None end); try discriminate);
+      (destruct (nth_opt (e_glyphs e) (e_gid e)); [|discriminate]);
+      (apply nofuel_bind; [apply run_nofuel; unfold STACK_LIMIT, DEPTH_FUEL; lia|intros s; nf]). }
+  split; [exact H|]. unfold run_glyph. apply nofuel_bind; [exact H|intros s; nf].
+Qed.
+
+(* a call at the limit is refused, whatever the subroutine is *)
+Theorem call_at_limit_refused : forall rec k subrs r s v rest,
+  stk s = v :: rest ->
+  step_call rec k STACK_LIMIT subrs r s = CErr ENestingLimitReached.
+Proof. intros rec k subrs r s v rest H. unfold step_call. rewrite H. reflexivity. Qed.
+
+(* ================================================================== *)
+(* 10. Subroutines: a call behaves as the inlined body                *)
+(* ================================================================== *)
+
+(* the bytes `a` are executed completely (no return/endchar break inside) and lead from s to s' *)
+Definition normal (df : nat) (e : env) (d : Z) (a : list Z) (s s' : ist) : Prop :=
+  forall rest, run df e d (a ++ rest) s = run df e d rest s'.
+
+Lemma normal_nil : forall df e d s, normal df e d [] s s.
+Proof. intros df e d s rest. reflexivity. Qed.
+
+Lemma normal_app : forall df e d a b s1 s2 s3,
+  normal df e d a s1 s2 -> normal df e d b s2 s3 -> normal df e d (a ++ b) s1 s3.
+Proof. intros df e d a b s1 s2 s3 Ha Hb rest. rewrite <- app_assoc, Ha, Hb. reflexivity. Qed.
+
+Lemma normal_num : forall df e d bs v s,
+  encodes bs v -> len (stk s) < max_stack e ->
+  normal (S df) e d bs s (set_stk s (stk s ++ [v])).
+Proof.
+  intros df e d bs v s Henc Hroom rest. rewrite (run_num bs v Henc). unfold push.
+  destruct (len (stk s) =? max_stack e) eqn:E; [lia|]. reflexivity.
+Qed.
+
+Lemma normal_ops : forall ops body, enc_ops ops body ->
+  forall df e d w n ec sk vi sc p c0,
+  ops_wf (max_stack e) (has_move p) n ops -> 0 <= n -> max_stack e <= TEMP_OPERANDS ->
+  normal (S df) e d body (mkI [] w n ec sk vi sc p c0)
+    (mkI [] w (snd (fst (ops_eff ops p n))) ec sk vi sc (fst (fst (ops_eff ops p n)))
+         (c0 ++ snd (ops_eff ops p n))).
+Proof. intros ops body Henc df e d w n ec sk vi sc p c0 Hwf Hn Ht rest. apply run_ops; assumption. Qed.
+
+Lemma pop_push : forall s v, pop (set_stk s (stk s ++ [v])) = COk (v, s).
+Proof.
+  intros [k0 w0 n0 ec0 sk0 vi0 sc0 p0 c0] v. unfold pop, set_stk. cbn [stk].
+  destruct (k0 ++ [v]) eqn:E; [destruct k0; discriminate E|]. rewrite <- E.
+  rewrite last_last, removelast_last. reflexivity.
+Qed.
+
+Lemma set_ps_nil : forall s, set_ps s (ps s) [] = s.
+Proof. intros [k0 w0 n0 ec0 sk0 vi0 sc0 p0 c0]. unfold set_ps. cbn. rewrite app_nil_r. reflexivity. Qed.
+
+(* which INDEX an operator byte calls into *)
+Definition call_target (e : env) (opb : Z) : option (list (list Z)) :=
+  if opb =? 10 then local_subrs e else if opb =? 29 then Some (e_gsubrs e) else None.
+
+(* A call -- biased index operand in any encoding, then callsubr / callgsubr -- is executed as a
+   block that takes the state to wherever the subroutine's body takes it one level deeper.
+   `ret` is the optional trailing return. *)
+Theorem call_normal : forall df e d opb subrs idx nb body ret s1 s2,
+  0 <= d < STACK_LIMIT -> (opb = 10 \/ opb = 29) ->
+  call_target e opb = Some subrs ->
+  0 <= idx < len subrs -> len subrs <= 65536 ->
+  nth_opt subrs idx = Some (body ++ ret) ->
+  (ret = [] \/ (ret = [11] /\ e_kind e = KCFF)) ->
+  encodes nb (of_int (idx - calc_subroutine_bias (len subrs))) ->
+  len (stk s1) < max_stack e ->
+  normal (S df) e (d + 1) body s1 s2 ->
+  endchar_seen s2 = false ->
+  normal (S (S df)) e d (nb ++ [opb]) s1 s2.
+Proof.
+  intros df e d opb subrs idx nb body ret s1 s2 Hd Hop Htgt Hidx Hn Hsub Hret Henc Hroom Hbody Hec rest.
+  rewrite <- app_assoc. rewrite (run_num nb _ Henc). unfold push.
+  destruct (len (stk s1) =? max_stack e) eqn:E; [lia|]. cbn [cbind app].
+  rewrite run_cons. unfold step.
+  assert (Hstep : step_call (run (S df) e) (run (S (S df)) e d) d (Some subrs) rest
+                    (set_stk s1 (stk s1 ++ [of_int (idx - calc_subroutine_bias (len subrs))])) =
+                  run (S (S df)) e d rest s2).
+  { unfold step_call.
+    destruct (stk (set_stk s1 (stk s1 ++ [of_int (idx - calc_subroutine_bias (len subrs))]))) eqn:Ek.
+    { destruct s1 as [k0 w0 n0 ec0 sk0 vi0 sc0 p0 c0]. cbn [set_stk stk] in Ek.
+      destruct k0; discriminate Ek. }
+    clear Ek. destruct (Z.eqb_spec d STACK_LIMIT) as [|_]; [lia|].
+    rewrite pop_push. cbn [cbind].
+    destruct (bias_reaches_every_subr (len subrs) idx Hidx Hn) as (Hconv & _). rewrite Hconv.
+    cbn [cbind]. rewrite Hsub.
+    rewrite (Hbody ret).
+    assert (Hr : run (S df) e (d + 1) ret s2 = COk s2).
+    { destruct Hret as [->|[-> Hk]]; [reflexivity|].
+      rewrite run_cons. unfold step. change (classify 11) with KReturn. rewrite Hk.
+      unfold visit_op. change (visit_fn 11) with (Some F_ok). cbn [pvisit cbind].
+      rewrite set_ps_nil. reflexivity. }
+    rewrite Hr. cbn [cbind]. unfold after_call. rewrite Hec. reflexivity. }
+  destruct Hop as [-> | ->].
+  - change (classify 10) with KCallL. unfold call_target in Htgt. cbn [Z.eqb Pos.eqb] in Htgt.
+    rewrite Htgt. exact Hstep.
+  - change (classify 29) with KCallG. unfold call_target in Htgt. cbn [Z.eqb Pos.eqb] in Htgt.
+    injection Htgt as <-. exact Hstep.
+Qed.
+
+Lemma ops_eff_app : forall a b p n,
+  ops_eff (a ++ b) p n =
+  (fst (fst (ops_eff b (fst (fst (ops_eff a p n))) (snd (fst (ops_eff a p n))))),
+   snd (fst (ops_eff b (fst (fst (ops_eff a p n))) (snd (fst (ops_eff a p n))))),
+   snd (ops_eff a p n) ++ snd (ops_eff b (fst (fst (ops_eff a p n))) (snd (fst (ops_eff a p n))))).
+Proof.
+  induction a as [|o a IH]; intros b p n.
+  - cbn [app ops_eff fst snd]. destruct (ops_eff b p n) as [[pf nf] cf]. reflexivity.
+  - cbn [app ops_eff]. rewrite IH.
+    destruct (ops_eff a (fst (spec_eff o p)) (n + stems_of o)) as [[p1 n1] c1]. cbn [fst snd].
+    destruct (ops_eff b p1 n1) as [[p2 n2] c2]. cbn [fst snd]. rewrite app_assoc. reflexivity.
+Qed.
+
+Lemma ops_wf_app : forall a b maxargs p n,
+  ops_wf maxargs (has_move p) n (a ++ b) ->
+  ops_wf maxargs (has_move p) n a /\
+  ops_wf maxargs (has_move (fst (fst (ops_eff a p n)))) (snd (fst (ops_eff a p n))) b.
+Proof.
+  induction a as [|o a IH]; intros b maxargs p n H.
+  - cbn [app ops_eff fst snd] in *. split; [exact I|exact H].
+  - cbn [app] in H. destruct H as (H1 & H2 & H3 & H4 & H5 & H6).
+    rewrite <- (spec_eff_has_move o p) in H6. apply IH in H6. destruct H6 as [Ha Hb].
+    split.
+    + cbn [ops_wf]. rewrite <- (spec_eff_has_move o p). auto 10.
+    + cbn [ops_eff]. destruct (ops_eff a (fst (spec_eff o p)) (n + stems_of o)) as [[p1 n1] c1].
+      exact Hb.
+Qed.
+
+Lemma ops_eff_nonneg : forall a p n, 0 <= n -> 0 <= snd (fst (ops_eff a p n)).
+Proof.
+  induction a as [|o a IH]; intros p n Hn; [exact Hn|].
+  cbn [ops_eff]. specialize (IH (fst (spec_eff o p)) (n + stems_of o)).
+  destruct (ops_eff a (fst (spec_eff o p)) (n + stems_of o)) as [[p1 n1] c1]. cbn [fst snd] in *.
+  apply IH. pose proof (stems_of_nonneg o). lia.
+Qed.
+
+(* A well-formed program whose middle part B was moved into a local or global subroutine (any
+   INDEX size up to 65536, index operand in any encoding, with or without a trailing return)
+   draws the path of the unfactored program A ++ B ++ C. *)
+Theorem factored_program_spec : forall e A B C bodyA bodyB bodyC opb subrs idx nb ret,
+  e_kind e = KCFF ->
+  enc_ops A bodyA -> enc_ops B bodyB -> enc_ops C bodyC ->
+  prog_wf CFF_MAX_OPERANDS None (A ++ B ++ C) ->
+  (opb = 10 \/ opb = 29) -> call_target e opb = Some subrs ->
+  0 <= idx < len subrs -> len subrs <= 65536 ->
+  nth_opt subrs idx = Some (bodyB ++ ret) -> (ret = [] \/ ret = [11]) ->
+  encodes nb (of_int (idx - calc_subroutine_bias (len subrs))) ->
+  nth_opt (e_glyphs e) (e_gid e) = Some (bodyA ++ (nb ++ [opb]) ++ bodyC ++ [14]) ->
+  exists s, interp_glyph e = COk s /\ out s = prog_path (A ++ B ++ C).
+Proof.
+  intros e A B C bodyA bodyB bodyC opb subrs idx nb ret Hk HA HB HC (Hwf & _) Hop Htgt Hidx Hn Hsub
+         Hret Henc Hg.
+  assert (Hmax : max_stack e = CFF_MAX_OPERANDS) by (unfold max_stack; rewrite Hk; reflexivity).
+  assert (Ht : max_stack e <= TEMP_OPERANDS) by (rewrite Hmax; vm_compute; congruence).
+  rewrite <- Hmax in Hwf. change false with (has_move pst0) in Hwf.
+  apply ops_wf_app in Hwf. destruct Hwf as [HwA HwBC].
+  apply ops_wf_app in HwBC. destruct HwBC as [HwB HwC].
+  pose proof (ops_eff_nonneg A pst0 0 ltac:(lia)) as HnA.
+  pose proof (ops_eff_nonneg B (fst (fst (ops_eff A pst0 0))) _ HnA) as HnB.
+  unfold interp_glyph. rewrite Hk, Hg. unfold DEPTH_FUEL, ist0.
+  (* A *)
+  rewrite (normal_ops A bodyA HA 11 e 0) by (assumption || lia).
+  (* the call = B one level deeper *)
+  pose proof (normal_ops B bodyB HB 10 e (0 + 1) false (snd (fst (ops_eff A pst0 0))) false false
+                None None (fst (fst (ops_eff A pst0 0))) ([] ++ snd (ops_eff A pst0 0)) HwB HnA Ht)
+    as HBn.
+  assert (Hret' : ret = [] \/ ret = [11] /\ e_kind e = KCFF)
+    by (destruct Hret as [->| ->]; [left; reflexivity|right; split; [reflexivity|exact Hk]]).
+  assert (Hd : 0 <= 0 < STACK_LIMIT) by (unfold STACK_LIMIT; lia).
+  match type of HBn with normal _ _ _ _ ?sA ?sB =>
+    assert (Hroom : len (stk sA) < max_stack e)
+      by (cbn [stk]; change (len []) with 0; rewrite Hmax; vm_compute; reflexivity);
+    pose proof (call_normal 10 e 0 opb subrs idx nb bodyB ret sA sB Hd Hop Htgt Hidx Hn Hsub Hret'
+                  Henc Hroom HBn eq_refl) as Hcall
+  end.
+  rewrite Hcall.
+  (* C, then endchar *)
+  rewrite (run_ops C bodyC HC) by (assumption || lia).
+  rewrite run_endchar by exact Hk. cbn [cbind].
+  eexists; split; [reflexivity|]. cbn [out app].
+  rewrite <- ops_eff_path. rewrite !ops_eff_app. cbn [fst snd].
+  unfold parse_endchar. rewrite <- !app_assoc.
+  destruct (first_move _); reflexivity.
+Qed.
